@@ -103,7 +103,9 @@ let run_case op t =
        | "copy" -> (leg (sv_copy n a b) f, sp (pre_count n (u b)))
        | _ -> (leg (sv_substr n a b) f, sp (pre_count n (u a))))
   | "opt" ->
-      let e = next_bool t in let _ = next_str t in (leg (opt_deref e) "optional.hpp", sp e)
+      let e = next_bool t in let o = next_str t in
+      if o = "arrow" || o = "carrow" || o = "refarrow" then (leg (opt_arrow e) "optional.hpp", sp (pre_opt_arrow e))
+      else (leg (opt_deref e) "optional.hpp", sp e)
   | "exp" ->
       let h = next_bool t in let o = next_str t in
       if o = "deref" || o = "cderef" then (leg (exp_deref h) "expected.hpp", sp h)
@@ -231,6 +233,16 @@ let run_case op t =
       (match to_string_guard cap v with
        | Some ok -> (leg ok "to_string.hpp", sp (pre_to_string cap v))
        | None -> ("fuel", sp (pre_to_string cap v)))
+  | "exparrow" ->
+      let h = next_bool t in let _ = next_str t in (leg (exp_arrow h) "expected.hpp", sp (pre_exp_arrow h))
+  | "arrfb" ->
+      let n = next_z t in let o = next_str t in
+      let safe = (try Sys.getenv "VERIF_C05_SAFE" = "1" with Not_found -> false) in
+      let g = (match o with
+        | "front" | "cfront" -> array_front n
+        | "back" | "cback" -> array_back n
+        | _ -> if Big.sign (big_of_z n) = 0 then array0_index safe else array_index safe n Z0) in
+      (leg g "array.hpp", sp (pre_nonempty n))
   | "fmt" ->
       let chars = next_zlist t in
       (match format_escaped_guard chars with
